@@ -15,13 +15,13 @@ import z3
 from pyvc import model as M
 from pyvc.model import Obj
 
-conforms = z3.Function("conforms", Obj, Obj, M.B)        # C02: value conforms to schema
+conforms = M.conforms                                    # C02: value conforms to schema
 sub_ok = z3.Function("sub_ok", Obj, Obj, M.B)            # partial conformance (SubstitutorValidator)
 wf = z3.Function("wf", Obj, M.B)                         # schema is well-formed (C10 invariant)
 satisfiable = z3.Function("satisfiable", Obj, M.B)
 custom_ok = z3.Function("custom_ok", Obj, Obj, M.B)
 
-ERRORS = z3.Function  # placeholder to keep linters quiet
+CT: Any = None      # the class table of the run (set by pyvc.cli.load_all / the test drivers)
 
 
 def S_(s: str) -> Any:
@@ -38,9 +38,7 @@ def reg_of(S: Any) -> Any:
 
 def prop(S: Any, name: str) -> Any:
     """`schema.props.<name>`: Props.get(name) -> registry.get(name, Nil)."""
-    r = reg_of(S)
-    k = S_(name)
-    return z3.If(M.has(r, k), M.dget(r, k), M.NilV)
+    return M.propf(S, S_(name))
 
 
 def declared(S: Any, name: str) -> Any:
@@ -158,8 +156,10 @@ def wf_def(ct, cls: str, S: Any) -> List[Any]:
                                       z3.And(is_schema(ct, M.lat(t, j)), wf(M.lat(t, j)))),
                       patterns=[M.lat(t, j)]))))
     elif cls == "TypeAliasSchema":
-        t = P("type")
-        f.append(nil_or(t, z3.And(is_schema(ct, t), wf(t))))
+        # SchemaFacade.alias always stores `type`; a stored non-schema (it is not checked) is outside wf
+        r = reg_of(S)
+        t = M.dget(r, S_("type"))
+        f.append(z3.Implies(M.has(r, S_("type")), z3.And(is_schema(ct, t), wf(t))))
     return f
 
 
@@ -220,7 +220,8 @@ def conforms_def(ct, cls: str, S: Any, v: Any) -> Any:
         return z3.Implies(D("types"),
                           z3.Exists([j], z3.And(0 <= j, j < M.llen(t), conforms(M.lat(t, j), v))))
     if cls == "TypeAliasSchema":
-        return z3.Implies(D("type"), conforms(P("type"), v))
+        r = reg_of(S)
+        return z3.Implies(M.has(r, S_("type")), conforms(M.dget(r, S_("type")), v))
     if cls == "ListSchema":
         return list_conforms(ct, S, v)
     if cls == "DictSchema":
@@ -237,11 +238,9 @@ def list_len_ok(S: Any, n: Any) -> Any:
 
 
 def window_ok(E: Any, eoff: Any, k: Any, v: Any, voff: Any) -> Any:
-    """forall j<k. conforms(E[eoff+j], v[voff+j])"""
-    j = z3.Int("wj")
-    return z3.ForAll([j], z3.Implies(z3.And(0 <= j, j < k),
-                                     conforms(M.lat(E, eoff + j), M.lat(v, voff + j))),
-                     patterns=[M.lat(E, eoff + j)])
+    """forall j<k. conforms(E[eoff+j], v[voff+j])   (model.winok, defined by two axioms)"""
+    as_int = lambda t: z3.IntVal(t) if isinstance(t, int) else t
+    return M.winok(E, as_int(eoff), as_int(k), v, as_int(voff))
 
 
 def list_conforms(ct, S: Any, v: Any) -> Any:
@@ -261,7 +260,8 @@ def list_conforms(ct, S: Any, v: Any) -> Any:
     head = z3.And(m >= 2, last_ell, z3.Not(contains))
     tail = z3.And(m >= 1, first_ell, z3.Not(contains), z3.Not(head))
     elems = z3.If(contains,
-                  z3.Exists([i], z3.And(0 <= i, i + (m - 2) <= n, window_ok(E, 1, m - 2, v, i))),
+                  z3.Exists([i], z3.And(0 <= i, i + (m - 2) <= n, window_ok(E, 1, m - 2, v, i)),
+                            patterns=[window_ok(E, 1, m - 2, v, i)]),
             z3.If(head, z3.And(m - 1 <= n, window_ok(E, 0, m - 1, v, 0)),
             z3.If(tail, z3.And(m - 1 <= n, window_ok(E, 1, m - 1, v, n - (m - 1))),
                   z3.And(n == m, window_ok(E, 0, m, v, 0)))))
